@@ -31,6 +31,18 @@ def main():
     try:
         import fixfam
 
+        if prop == "C04":
+            import lexfam
+
+            return lexfam.check(prop, a.tier)
+        if prop == "C11":
+            import tagfam
+
+            return tagfam.check(prop, a.tier)
+        if prop == "C16":
+            import wbfam
+
+            return wbfam.check(prop, a.tier)
         if prop in fixfam.FAMILY:
             return fixfam.check(prop, a.tier)
         common.machinery("no check registered for " + prop)
